@@ -1,13 +1,18 @@
 // ===== prelude/sm_spec.rs: RaftLogStateMachine (copied, rule E6 on the cache field) and its invariants (DESIGN 3.3) =====
 //@struct src/raft_log/state_machine/mod.rs RaftLogStateMachine sub=#Arc<RwLock<PayloadCache<T>>>#PayloadCache<T>#
 
-/// magnitude / legality side conditions of one record w.r.t. the current machine (DESIGN 3.2)
+/// magnitude side conditions of one record w.r.t. the current machine (DESIGN 8.6; needed for panic-freedom only)
 pub open spec fn rec_fits<T: Types>(sm: RaftLogStateMachine<T>, rec: WALRecord<T>) -> bool {
     match rec {
         WALRecord::Append(id, p) => idx::<T>(id) < u64::MAX && sm.payload_cache.size + T::spec_payload_size(&p) <= usize::MAX,
         WALRecord::TruncateAfter(Some(p)) => idx::<T>(p) < u64::MAX,
         WALRecord::PurgeUpto(u) => idx::<T>(u) < u64::MAX,
-        // a State record is only specified when it keeps `last` (save_user_data, chunk heads) or nothing is live yet
+        _ => true,
+    }
+}
+/// a State record is only specified when it keeps `last` (save_user_data, chunk heads = state at rotation) or nothing is live yet
+pub open spec fn rec_state_legal<T: Types>(sm: RaftLogStateMachine<T>, rec: WALRecord<T>) -> bool {
+    match rec {
         WALRecord::State(s) => oidx_ok::<T>(s.purged) && (s.last == sm.log_state.last || (sm.log@.dom().is_empty() && sm.payload_cache.cache@.dom().is_empty() && oidx_ok::<T>(s.last))),
         _ => true,
     }
@@ -18,6 +23,8 @@ impl<T: Types> RaftLogStateMachine<T> {
     pub open spec fn cache_below_last(&self) -> bool {
         forall|k: T::LogId| #[trigger] self.payload_cache.cache@.contains_key(k) ==> le_opt(k, self.log_state.last)
     }
+    /// what every record — accepted or not — preserves (enough for panic-freedom): the byte counter never undercounts
+    pub open spec fn inv_weak(&self) -> bool { self.payload_cache.slack() >= 0 && oidx_ok::<T>(self.log_state.last) }
     /// the part of Inv_SM every accepted write preserves unconditionally
     pub open spec fn inv_core(&self) -> bool {
         &&& self.payload_cache.inv()
